@@ -100,7 +100,7 @@ func VerifC18Arrays() {
 	x, y := nd.IntIn(0, 9), nd.IntIn(0, 9)
 	canon := []any{x, y}
 	var other any
-	switch nd.Choice(6) {
+	switch nd.Choice(8) {
 	case 0:
 		other = []int{x, y}
 	case 1:
@@ -114,6 +114,27 @@ func VerifC18Arrays() {
 	case 5:
 		p := []any{x, y}
 		other = &p
+	case 6:
+		// pointer elements, printed as a whole or one by one (not through filters that format them)
+		ti := 0
+		for i := range c18ArrayTemplates {
+			if c18ArrayTemplates[i] == t {
+				ti = i
+			}
+		}
+		nd.Assume(ti == 5 || ti == 6 || ti == 8 || ti == 10)
+		other = []*int{&x, &y}
+	case 7:
+		ti := 0
+		for i := range c18ArrayTemplates {
+			if c18ArrayTemplates[i] == t {
+				ti = i
+			}
+		}
+		nd.Assume(ti == 5 || ti == 8)
+		var np *int
+		canon = []any{x, nil}
+		other = []any{&x, np}
 	}
 	b := []any{5, 7}
 	o1, e1 := vRender(t, Bindings{"a": canon, "b": b})
